@@ -106,3 +106,59 @@ def c_family(c, seeds):
                     c.check("C05: the satisfied soft constraints are the greedy-by-priority maximal set" + T,
                             any(all(after[n] == V[n] for n in F) for V in best),
                             info="%s values %r kept %d of %d softs\n%s" % (tag, after, len(kept), len(slist), src))
+
+
+def order_cases(tier, seed):
+    n = 1200 if tier == "thorough" else 200
+    base = 500000 + 1000 * (seed % 1000)
+    ids = [base + i for i in range(n)]
+    return [(ids[i:i + 20],) for i in range(0, n, 20)]
+
+
+@contract("api_programs.order_family", ["C20", "C01", "C02"],
+          ["vsc.constraints.solve_order", "vsc.model.rand_info_builder.RandInfoBuilder.build",
+           "vsc.model.solvegroup_swizzler_partsel.SolveGroupSwizzlerPartsel.swizzle",
+           "vsc.model.solvegroup_swizzler_partsel.SolveGroupSwizzlerPartsel.swizzle_field_l"],
+          order_cases, kind="bounded",
+          bound="the program family of api_programs.family without soft constraints, plus 1..3 acyclic solve_order directives (single "
+                "fields and lists of fields) over its random fields; 200 programs quick / 1200 thorough; 2 settings x 3 calls")
+def c_order_family(c, seeds):
+    import vsc
+    from vsc.model.rand_state import RandState
+    from vsc.model.solve_failure import SolveFailure
+    for sd in seeds:
+        P = programs.gen_program(sd, with_soft=False, with_order=True)
+        src = programs.render(P)
+        ns = {"vsc": vsc}
+        try:
+            exec(src, ns)
+            o = ns["P"]()
+        except Exception as e:
+            c.check("the program is accepted by the DSL", False, info="seed %d: %s: %s\n%s" % (sd, type(e).__name__, e, src))
+            continue
+        F = P["F"]
+        cls = ref_eval.classify(P)
+        T = " [%s]" % (",".join(cls) if cls else "plain")
+        r = random.Random(sd)
+        o.set_randstate(RandState.mkFromSeed(sd))
+        for fixed in fixed_choices(P, r):
+            for n, v in fixed.items():
+                setattr(o, n, v)
+            sols = ref_eval.solutions(F, P["rand"], fixed, P["stmts"])
+            tag = "seed %d fixed %r" % (sd, fixed)
+            for call in range(3):
+                try:
+                    o.randomize()
+                    failed = None
+                except SolveFailure as e:
+                    failed = e
+                except Exception as e:
+                    c.check("C20: ordering never paints the solve into a corner (no exception other than SolveFailure)" + T, False,
+                            info="%s %s: %s\n%s" % (tag, type(e).__name__, e, src))
+                    break
+                after = {n: int(getattr(o, n)) for n in F}
+                c.check("C20: satisfiability is unchanged by solve_order (SolveFailure iff unsatisfiable)" + T,
+                        (failed is not None) == (len(sols) == 0), info="%s solutions=%d\n%s" % (tag, len(sols), src))
+                if failed is None and sols:
+                    c.check("C20: all constraints still hold with solve_order" + T,
+                            all(ref_eval.holds(st, F, after) for st in P["stmts"]), info="%s values %r\n%s" % (tag, after, src))
